@@ -90,6 +90,32 @@ CHECKS.update({
     technique='round-trip and differential property-based testing, exhaustive chunking of a corpus, coverage-guided fuzzing (thorough)'),
 })
 
+CHECKS.update({
+ 'C04': dict(level='exploration', design='3/C04',
+    text='Bounded exhaustive enumeration of fragmented transfers (element type per size x tag length x start x count x reply budget 1..3*size+1 set through Logix.MAX_BYTES or the per-request max_size, via Unconnected Send, Multiple Service Packet and straight to the Logix object) driven exactly as the statement says, all in-order tilings for fragmented writes with guard tags, plus Hypothesis-drawn large cases (tags up to 5000 elements, the real 488-byte budget) and the same transfers through cpppo\'s own client over TCP. Exhaustive within the stated bounds only.',
+    note='Trusted: CPython, Hypothesis, vp/refcodec.py, vp/sim.py. In-bounds, element-aligned transfers only (out-of-bounds is C05).',
+    technique='bounded exhaustive enumeration + property-based testing with a reassembly/model-slice oracle'),
+ 'C17': dict(level='exploration', design='3/C17',
+    text='Instants x all 599 zones x precisions x parse paths with every transition of every zone enumerated (transition table bisected by the harness from zoneinfo and re-checked per case), harness-built wall-clock strings in gaps/folds/edges, comparison operators vs. renderings, duration and offset round trips; oracle: the set of UTC instants having the rendered wall-clock time decides return/reject. Exploration; the per-zone transition enumeration is complete for the tzdata installed.',
+    note='Trusted: CPython zoneinfo/tzdata, Hypothesis. Comparison-equal pairs up to 2 ms apart at exact float ties are counted as observations, not failures.',
+    technique='property-based testing + enumeration of all zone transitions with an independent transition-table oracle'),
+})
+
+CHECKS.update({
+ 'C01': dict(level='exploration', design='3/C01',
+    text='Hypothesis-generated messages over the whole grammar (typed data for 14 element types, EPATH plain/padded/single with every segment kind and width, status, every Message Router / Logix / Connection Manager service request and reply incl. Multiple Service Packets and small/large Forward Open, Unconnected Send and its error reply, CPF items, every encapsulation command) plus a deterministic boundary product; three clauses per message: library produce == independent reference encoder, library parse of reference bytes recovers every encoded field leaf by leaf (layered as server and client do), produce(parse(b)) == b exactly. Exploration only.',
+    note='Trusted: CPython, Hypothesis, vp/refcodec.py + vp/refcodec_full.py (struct only, no cpppo; self-tested enc(dec(enc(m)))==enc(m)). A layout misread shared by cpppo\'s docstring tables and the reference encoder is invisible (C14 cross-checks the pylogix subset).',
+    technique='round-trip and differential property-based testing against an independent reference codec'),
+ 'C02': dict(level='fault_enumeration', design='3/C02',
+    text='(a) framer in-process: generated frame streams x every two-way split, byte-at-a-time, block and Hypothesis k-way chunkings, fed exactly as enip_srv_tcp feeds its machine -- parsed frames, consumed byte counts and source.sent identical for every chunking and equal to the reference decoder, partial tail never completes; (b) the same streams served chunk by chunk to a real cpppo client; (c) over TCP every truncation offset of generated write-request streams followed by half-close: replies == frames wholly delivered, tags == model after exactly those frames, witness session and new registration work. Exhaustive per generated stream within the stated bounds.',
+    note='Trusted: CPython, Hypothesis, vp/refcodec.py. The in-process feeder re-implements the server loop; only the TCP engine reaches enip_srv_tcp itself. Socket timeouts (30 s) are inconclusive.',
+    technique='metamorphic chunking-invariance testing + exhaustive truncation-offset fault enumeration over generated streams'),
+ 'C18': dict(level='exploration', design='3/C18',
+    text='Generated histories (rotated / compressed / duplicated files written with the real logger, equal and increasing timestamps, comments and damaged lines) x loader settings x Hypothesis-drawn schedules of load() calls under a harness-owned clock, judged by a record-list model: every record exactly once, in order, never early, not late, final register map, COMPLETE; two exhaustively enumerated universes (file switches, one damaged line). One design-level finding (a file starting at the timestamp of a single-timestamp predecessor is skipped) is listed as known.',
+    note='Trusted: CPython, Hypothesis, the record-list model in vp/checks/c18.py. Record times in one history are >= 2 ms apart (timestamp compares with a 1 ms epsilon).',
+    technique='model-based property testing of histories and load() schedules under a controlled clock + bounded exhaustive universes'),
+})
+
 PENDING = {}
 
 def main():
